@@ -453,4 +453,24 @@ example :
     let s : St := { toks := [(0, ⟨true, 1, (5 * 10^17 : Int), 0⟩), (1, ⟨false, 1, (25 * 10^16 : Int), 0⟩)] }
     upsertTok s 3 ⟨true, 1, (5 * 10^17 : Int), 0⟩ = none := by decide +kernel
 
+/-! ## layer2 `MsgMintBurnTx` aimed at a pool's share tokens -/
+
+/-- the pool records are not touched, and the module account keeps everything: staked tokens and pending undelegations
+stay covered -/
+theorem l2_burn_keeps_pools (s s' : St) (a : Nat) (c : Coins) (h : l2Burn s a c = some s') :
+    s'.pools = s.pools ∧ s'.undels = s.undels ∧ s'.delegators = s.delegators ∧ s'.rewards = s.rewards := by
+  unfold l2Burn at h
+  cases hb : s.bank.burn (.user a) c with
+  | none => rw [hb] at h; cases h
+  | some b => rw [hb] at h; cases h; exact ⟨rfl, rfl, rfl, rfl⟩
+
+/-- … but clause (a) - share supply EQUAL to the recorded share total - is lost on the code as it is: after the first
+delegation of the witness history (1000 shares outstanding, 1000 recorded) the delegator burns 400 of them through the
+layer2 module: the supply is 600, the pool still records 1000 (finding `C10/l2-burn/share-supply-below-record`) -/
+theorem l2_burn_share_supply_counterexample :
+    let s := run w0 (wOps.take 2)
+    AMap.get s.bank.supply ⟨1, 0⟩ = 1000 ∧ (findPool s 0).map (fun p => AMap.get p.shares ⟨1, 0⟩) = some 1000 ∧
+    (l2Burn s 2 [(⟨1, 0⟩, 400)]).map (fun s' => (AMap.get s'.bank.supply ⟨1, 0⟩, (findPool s' 0).map (fun p => AMap.get p.shares ⟨1, 0⟩)))
+      = some (600, some 1000) := by decide +kernel
+
 end Sekai.Props.C10
